@@ -59,6 +59,7 @@ type Ctx struct {
 	SkipTo  int64
 	DumpSeq int64
 	Replay  bool // running a single replay case
+	OutPath string
 
 	seq      int64
 	progress atomic.Int64
@@ -371,15 +372,30 @@ func (c *Ctx) Watchdog(hang time.Duration, maxHeap uint64) {
 			} else if time.Since(lastChange) > hang {
 				fmt.Fprintf(os.Stderr, "VERIF-WATCHDOG: no progress for %v\n", hang)
 				pprof.Lookup("goroutine").WriteTo(os.Stderr, 1)
+				c.saveOnExit()
 				os.Exit(ExitHang)
 			}
 			runtime.ReadMemStats(&ms)
 			if ms.HeapAlloc > maxHeap {
 				fmt.Fprintf(os.Stderr, "VERIF-WATCHDOG: heap %d MiB exceeds limit\n", ms.HeapAlloc>>20)
+				c.saveOnExit()
 				os.Exit(ExitResource)
 			}
 		}
 	}()
+}
+
+// saveOnExit writes what was observed so far when the watchdog ends the worker.
+func (c *Ctx) saveOnExit() {
+	if c.OutPath == "" {
+		return
+	}
+	done := make(chan struct{})
+	go func() { c.Finish(c.OutPath, false); close(done) }()
+	select {
+	case <-done:
+	case <-time.After(10 * time.Second):
+	}
 }
 
 // ReplayCase re-runs one case of a registered kind.
